@@ -408,12 +408,19 @@ class CheckOptions:
         # whose contract above proves the absence of duplicates
         return no_duplicates(self.synchro_options)
 
-    def post_core_and_strict_dropped_when_their_lists_are_empty(self, old):
+    def post_core_dropped_without_core_identifiers(self):
+        return implies(len(self.core_identifiers) == 0, SynchronizationOptions.CORE not in self.synchro_options)
+
+    def post_strict_dropped_without_supvisors_list(self):
+        return implies(self.supvisors_list is None or len(self.supvisors_list) == 0,
+                       SynchronizationOptions.STRICT not in self.synchro_options)
+
+    def post_nothing_else_dropped(self, old):
         no_core = len(self.core_identifiers) == 0
         no_list = self.supvisors_list is None or len(self.supvisors_list) == 0
-        return forall(SynchronizationOptions, lambda o: (o in self.synchro_options) == (
-            o in old.self.synchro_options and not (o == SynchronizationOptions.CORE and no_core)
-            and not (o == SynchronizationOptions.STRICT and no_list)))
+        return all(implies(o in old.self.synchro_options and not (o == SynchronizationOptions.CORE and no_core)
+                           and not (o == SynchronizationOptions.STRICT and no_list), o in self.synchro_options)
+                   for o in SynchronizationOptions)
 
     def post_result_not_empty(self):
         return len(self.synchro_options) > 0
@@ -430,8 +437,104 @@ class CheckOptions:
             SupvisorsFailureStrategies.CONTINUE if SynchronizationOptions.TIMEOUT in self.synchro_options
             else old.self.supvisors_failure_strategy)
 
-    def post_class_default_untouched(self):
-        return SupvisorsOptions.SYNCHRO_DEFAULT_OPTIONS == old_heap(SupvisorsOptions.SYNCHRO_DEFAULT_OPTIONS)
 
-    def exc_ValueError_class_default_untouched(self, exc):
-        return SupvisorsOptions.SYNCHRO_DEFAULT_OPTIONS == old_heap(SupvisorsOptions.SYNCHRO_DEFAULT_OPTIONS)
+# ======================================================================================================================
+# 3. domain checks of the rules parser (sparser.py): "every value outside its domain leaves the default"
+# ======================================================================================================================
+def xml_text(elt, tag):
+    """text of the first <tag> child of the element (None when absent): assumed ElementTree accessor"""
+    return uf('xml_text', 'Optional[str]', elt, tag)
+
+
+def has_text(t):
+    return t is not None and t != ''
+
+
+def seq_valid(t):
+    return has_text(t) and uf('int_parses', bool, t) and uf('int_value', int, t) >= 0
+
+
+def load_valid(t):
+    return has_text(t) and uf('int_parses', bool, t) and 0 <= uf('int_value', int, t) and uf('int_value', int, t) <= 100
+
+
+def bool_valid(t):
+    return has_text(t) and uf('bool_like', bool, t)
+
+
+def enum_valid(t, klass):
+    return has_text(t) and any(t == m.name for m in klass)
+
+
+@contract('sparser:Parser.load_sequence', props=['C18'])
+class LoadSequence:
+    """statement: 'every value outside its domain (negative sequence ...) leaves the default'; DESIGN C18.3: sets the
+    attribute iff the text parses to an int >= 0, otherwise the rule object is unchanged (frame) and nothing escapes.
+    Verified once per (attribute, rules class) passed by the callers."""
+    raises = ()
+    types = {'elt': 'Element'}
+    variants = ['attr_string="start_sequence"; rules:ProcessRules', 'attr_string="stop_sequence"; rules:ProcessRules',
+                'attr_string="start_sequence"; rules:ApplicationRules', 'attr_string="stop_sequence"; rules:ApplicationRules']
+
+    def modifies(self, attr_string, rules):
+        return [field(rules, attr_string)]
+
+    def pre_attribute(self, attr_string):
+        return attr_string in ('start_sequence', 'stop_sequence')
+
+    def post_set_iff_in_domain(self, elt, attr_string, rules, old):
+        t = xml_text(elt, attr_string)
+        return getattr(rules, attr_string) == (uf('int_value', int, t) if seq_valid(t) else getattr(old.rules, attr_string))
+
+
+@contract('sparser:Parser.load_expected_loading', props=['C18'])
+class LoadExpectedLoading:
+    """statement: '... expected_loading outside 0-100 ... leaves the default'"""
+    raises = ()
+    types = {'elt': 'Element'}
+
+    def modifies(self, rules):
+        return [field(rules, 'expected_load')]
+
+    def post_set_iff_in_domain(self, elt, rules, old):
+        t = xml_text(elt, 'expected_loading')
+        return rules.expected_load == (uf('int_value', int, t) if load_valid(t) else old.rules.expected_load)
+
+
+@contract('sparser:Parser.load_boolean', props=['C18'])
+class LoadBoolean:
+    """statement: '... non-boolean ... leaves the default'"""
+    raises = ()
+    types = {'elt': 'Element'}
+    variants = ['attr_string="required"; rules:ProcessRules', 'attr_string="wait_exit"; rules:ProcessRules']
+
+    def modifies(self, attr_string, rules):
+        return [field(rules, attr_string)]
+
+    def pre_attribute(self, attr_string):
+        return attr_string in ('required', 'wait_exit')
+
+    def post_set_iff_boolean_like(self, elt, attr_string, rules, old):
+        t = xml_text(elt, attr_string)
+        return getattr(rules, attr_string) == (uf('bool_value', bool, t) if bool_valid(t) else getattr(old.rules, attr_string))
+
+
+@contract('sparser:Parser.load_enum', props=['C18'])
+class LoadEnum:
+    """statement: '... unknown enumeration ... leaves the default'.  Verified once per (attribute, enumeration, rules
+    class) passed by the callers."""
+    raises = ()
+    types = {'elt': 'Element'}
+    variants = ['attr_string="distribution"; klass=DistributionRules; rules:ApplicationRules',
+                'attr_string="starting_strategy"; klass=StartingStrategies; rules:ApplicationRules',
+                'attr_string="starting_failure_strategy"; klass=StartingFailureStrategies; rules:ApplicationRules',
+                'attr_string="running_failure_strategy"; klass=RunningFailureStrategies; rules:ApplicationRules',
+                'attr_string="starting_failure_strategy"; klass=StartingFailureStrategies; rules:ProcessRules',
+                'attr_string="running_failure_strategy"; klass=RunningFailureStrategies; rules:ProcessRules']
+
+    def modifies(self, attr_string, rules):
+        return [field(rules, attr_string)]
+
+    def post_set_iff_member_name(self, elt, attr_string, klass, rules, old):
+        t = xml_text(elt, attr_string)
+        return getattr(rules, attr_string) == (klass[t] if enum_valid(t, klass) else getattr(old.rules, attr_string))
